@@ -243,7 +243,11 @@ func numericSnippet(r *Rng, n int) (string, string) {
 	v := fmt.Sprintf("n%d", n)
 	t := Pick(r, intTypes)
 	signed := strings.HasPrefix(t, "Int")
-	switch r.Intn(9) {
+	switch r.Intn(11) {
+	case 9, 10: // built-in (native) functions as first-class values: their dynamic type is requested
+		t2 := Pick(r, intTypes)
+		return fmt.Sprintf("let %s: AnyStruct = %s\n out.append(%s.isInstance(Type<Int>()).toString())\n out.append(%s.getType().identifier)\n out.append((%s as? fun(Int): Int) == nil ? \"no\" : \"yes\")\n let %sg: AnyStruct = %s\n out.append(%sg.getType().identifier)",
+			v, t, v, v, v, v, t2, v), "num:builtin-function-value:" + t
 	case 0: // default step (cached 1), contains (cached 0)
 		lo, hi := r.Intn(3), 3+r.Intn(5)
 		return fmt.Sprintf("let %s = InclusiveRange<%s>(%d, %d)\n var %ss: %s = 0\n for i in %s { %ss = %ss + i }\n out.append(%ss.toString())\n out.append(%s.contains(%d).toString())\n out.append(%s.step.toString())",
